@@ -1,6 +1,7 @@
 package world
 
 import (
+	"sort"
 	"strconv"
 	"encoding/base64"
 	"encoding/json"
@@ -42,6 +43,9 @@ type IdP struct {
 	GroupVersion  int
 	DirHistory    map[string][]DirectoryVersion
 	DeletedGroups map[string]bool
+	// Nested: parent group -> groups that are members of it (Google directory only; a member of a nested group is an
+	// effective member of the parent)
+	Nested map[string][]string
 }
 
 // IdPUser is directory ground truth for one user.
@@ -127,6 +131,59 @@ func (p *IdP) SetGroups(email string, groups []string) {
 		p.GroupVersion++
 		p.snapshotGroups()
 	}
+}
+
+// Nest makes child a member of parent (admin operation in the directory).
+func (p *IdP) Nest(parent, child string, on bool) {
+	p.mu.Lock()
+	defer p.mu.Unlock()
+	if p.Nested == nil {
+		p.Nested = map[string][]string{}
+	}
+	var rest []string
+	for _, c := range p.Nested[parent] {
+		if c != child {
+			rest = append(rest, c)
+		}
+	}
+	if on && parent != child {
+		rest = append(rest, child)
+	}
+	p.Nested[parent] = rest
+	p.GroupVersion++
+	p.snapshotGroups()
+}
+
+// effectiveLocked lists the groups a user belongs to directly or through nesting (deleted groups carry nobody).
+func (p *IdP) effectiveLocked(u *IdPUser) []string {
+	in := map[string]bool{}
+	var out []string
+	for _, g := range u.Groups {
+		if !in[g] {
+			in[g] = true
+			out = append(out, g)
+		}
+	}
+	for depth := 0; depth < 3; depth++ {
+		for _, parent := range sortedNestKeys(p.Nested) {
+			for _, c := range p.Nested[parent] {
+				if in[c] && !p.DeletedGroups[c] && !in[parent] {
+					in[parent] = true
+					out = append(out, parent)
+				}
+			}
+		}
+	}
+	return out
+}
+
+func sortedNestKeys(m map[string][]string) []string {
+	ks := make([]string, 0, len(m))
+	for k := range m {
+		ks = append(ks, k)
+	}
+	sort.Strings(ks)
+	return ks
 }
 
 // RevokeUserTokens revokes every token of a user (admin action at the IdP).
@@ -216,7 +273,7 @@ func (p *IdP) UserGroups(email string) []string {
 	defer p.mu.Unlock()
 	if u := p.Users[email]; u != nil {
 		out := []string{}
-		for _, g := range u.Groups {
+		for _, g := range p.effectiveLocked(u) {
 			if !p.DeletedGroups[g] {
 				out = append(out, g)
 			}
@@ -313,6 +370,14 @@ func (p *IdP) Handler() http.Handler {
 			ep := "dir-has"
 			if strings.HasSuffix(req.URL.Path, "/members") {
 				ep = "dir-list"
+				// a fault may be scripted for the listing of one particular group
+				parts := strings.Split(strings.TrimPrefix(req.URL.EscapedPath(), "/admin/directory/v1/groups/"), "/")
+				g, _ := url.PathUnescape(parts[0])
+				p.mu.Lock()
+				if len(p.Script["dir-list:"+g]) > 0 || p.Sticky["dir-list:"+g] != nil {
+					ep = "dir-list:" + g
+				}
+				p.mu.Unlock()
 			}
 			p.backchannel(ep, rw, req, p.directory)
 		default:
@@ -467,7 +532,7 @@ func (p *IdP) snapshotGroups() {
 	}
 	cur := map[string]map[string]bool{}
 	for _, u := range p.Users {
-		for _, g := range u.Groups {
+		for _, g := range p.effectiveLocked(u) {
 			if cur[g] == nil {
 				cur[g] = map[string]bool{}
 			}
@@ -523,7 +588,7 @@ func (p *IdP) MemberNow(group, email string) bool {
 	if u == nil || u.Disabled {
 		return false
 	}
-	for _, g := range u.Groups {
+	for _, g := range p.effectiveLocked(u) {
 		if g == group {
 			return true
 		}
@@ -561,8 +626,8 @@ func (p *IdP) directory(rw http.ResponseWriter, req *http.Request) {
 		return
 	}
 	group := unesc(parts[0])
-	members := map[string]bool{}
-	known := false
+	members, effective := map[string]bool{}, map[string]bool{}
+	known := len(p.Nested[group]) > 0
 	for _, u := range p.Users {
 		for _, g := range u.Groups {
 			if g == group {
@@ -570,6 +635,11 @@ func (p *IdP) directory(rw http.ResponseWriter, req *http.Request) {
 				if !u.Disabled {
 					members[u.Email] = true
 				}
+			}
+		}
+		for _, g := range p.effectiveLocked(u) {
+			if g == group && !u.Disabled {
+				effective[u.Email] = true
 			}
 		}
 	}
@@ -583,9 +653,12 @@ func (p *IdP) directory(rw http.ResponseWriter, req *http.Request) {
 		for _, e := range sortedKeys(members) {
 			ms = append(ms, map[string]string{"email": e, "type": "USER", "kind": "admin#directory#member"})
 		}
+		for _, c := range p.Nested[group] {
+			ms = append(ms, map[string]string{"email": c, "type": "GROUP", "kind": "admin#directory#member"})
+		}
 		writeJSON(rw, 200, map[string]interface{}{"kind": "admin#directory#members", "members": ms})
 	case parts[1] == "hasMember" && len(parts) >= 3:
-		writeJSON(rw, 200, map[string]interface{}{"isMember": members[unesc(parts[2])]})
+		writeJSON(rw, 200, map[string]interface{}{"isMember": effective[unesc(parts[2])]}) // hasMember counts nested membership
 	default:
 		gerr(404, "notFound")
 	}
